@@ -228,8 +228,11 @@ def reused_object(K, nx, tab, fluid, p_f, p_i):
     return res
 
 
+TRAP = instrument.FPTrap()  # numpy FP exceptions raised inside bluebonnet frames, by kind and site
+
+
 def simulate(res, time, sched):
-    with np.errstate(all="ignore"), warnings.catch_warnings():
+    with TRAP, warnings.catch_warnings():
         warnings.simplefilter("ignore")
         if sched is None:
             res.simulate(time)
